@@ -11,6 +11,7 @@ package main
 
 import (
 	"fmt"
+	"go/constant"
 	"go/token"
 	"go/types"
 	"strings"
@@ -85,7 +86,7 @@ func tracksCells(fn *ssa.Function) bool {
 				if x.Op == token.MUL {
 					if fa, isFA := x.X.(*ssa.FieldAddr); isFA {
 						if _, _, ok := localCell(fa); ok {
-							if bt, isB := x.Type().Underlying().(*types.Basic); isB && bt.Info()&types.IsInteger != 0 {
+							if bt, isB := x.Type().Underlying().(*types.Basic); isB && bt.Info()&(types.IsInteger|types.IsString) != 0 {
 								reads = true
 							}
 						}
@@ -128,6 +129,11 @@ func transferCells(blk *ssa.BasicBlock, st nilState) nilState {
 		mut()
 		st[cellFor(a, path)] = intBase + int32(k+intBias)
 	}
+	// a string constant is known as empty (1) or not empty (2), like the engine's other yes/no knowledge
+	setCode := func(a ssa.Value, path string, code int32) {
+		mut()
+		st[cellFor(a, path)] = code
+	}
 	// copyFrom: what is known about (src, srcPath…) becomes known about (dst, dstPath…)
 	copyFrom := func(dst ssa.Value, dstPath string, src ssa.Value, srcPath string) {
 		type kv struct {
@@ -136,7 +142,7 @@ func transferCells(blk *ssa.BasicBlock, st nilState) nilState {
 		}
 		var got []kv
 		for k, n := range st {
-			if c, isCell := k.(*cellVal); isCell && c.alloc == src && strings.HasPrefix(c.path, srcPath) && n >= intBase {
+			if c, isCell := k.(*cellVal); isCell && c.alloc == src && strings.HasPrefix(c.path, srcPath) && n != 0 {
 				got = append(got, kv{c.path[len(srcPath):], n})
 			}
 		}
@@ -158,6 +164,8 @@ func transferCells(blk *ssa.BasicBlock, st nilState) nilState {
 			if gc.g == g && strings.HasPrefix(gc.path, gpath) {
 				if n, isInt := constIntPlain(k); isInt {
 					set(dst, dstPath+gc.path[len(gpath):], n)
+				} else if e, isStr := constStrEmpty(k); isStr {
+					setCode(dst, dstPath+gc.path[len(gpath):], e)
 				}
 			}
 		}
@@ -179,6 +187,10 @@ func transferCells(blk *ssa.BasicBlock, st nilState) nilState {
 				set(a, path, k)
 				continue
 			}
+			if e, isStr := constStrEmpty(x.Val); isStr {
+				setCode(a, path, e)
+				continue
+			}
 			if isStruct(x.Val) {
 				// the struct value carries what was known about where it was loaded from
 				copyFrom(a, path, x.Val, "")
@@ -196,7 +208,7 @@ func transferCells(blk *ssa.BasicBlock, st nilState) nilState {
 				continue
 			}
 			if a, path, ok := localCell(x.X); ok {
-				if n, has := st[cellFor(a, path)]; has && n >= intBase {
+				if n, has := st[cellFor(a, path)]; has && n != 0 {
 					mut()
 					st[x] = n
 				}
@@ -204,7 +216,7 @@ func transferCells(blk *ssa.BasicBlock, st nilState) nilState {
 		case *ssa.Field:
 			if isStruct(x) {
 				copyFrom(x, "", x.X, fmt.Sprintf(".%d", x.Field))
-			} else if n, has := st[cellFor(x.X, fmt.Sprintf(".%d", x.Field))]; has && n >= intBase {
+			} else if n, has := st[cellFor(x.X, fmt.Sprintf(".%d", x.Field))]; has && n != 0 {
 				mut()
 				st[x] = n
 			}
@@ -227,6 +239,18 @@ func constIntPlain(v ssa.Value) (int64, bool) {
 		return 0, false
 	}
 	return constInt(c)
+}
+
+// constStrEmpty: a string constant of the program text → 1 (empty) or 2 (not empty).
+func constStrEmpty(v ssa.Value) (int32, bool) {
+	c, ok := v.(*ssa.Const)
+	if !ok || c.Value == nil || c.Value.Kind() != constant.String {
+		return 0, false
+	}
+	if constant.StringVal(c.Value) == "" {
+		return 1, true
+	}
+	return 2, true
 }
 
 // globalCellOf: addr is a package-level variable or a field path of one.
@@ -268,7 +292,7 @@ func enterCells(succ *ssa.BasicBlock, idx int, st, ns nilState) {
 		}
 		src := phi.Edges[idx]
 		for k, n := range st {
-			if c, isCell := k.(*cellVal); isCell && c.alloc == src && n >= intBase {
+			if c, isCell := k.(*cellVal); isCell && c.alloc == src && n != 0 {
 				ns[cellFor(phi, c.path)] = n
 			}
 		}
